@@ -235,12 +235,18 @@ def fromOn (t : String) : Nat → Option Runner.WStatus :=
   | k :: st :: [] => fun i => if k.toNat?.getD 0 ≤ i then some (wstatusOf st) else none
   | _ => fun _ => none
 
-def runnerRun (fuel : Nat) (sig nat aterm akill late : String) : String :=
+def runnerRun (fuel : Nat) (sig nat aterm akill late : String) (hs : String := "-") : String :=
   let at1 : String → Nat → Option Runner.Sig := fun t => match t.splitOn ":" with
     | k :: s :: [] => fun i => if i = k.toNat?.getD 0 then some (if s == "alrm" then .alrm else .term) else none
     | _ => fun _ => none
   let e : Runner.Env := { sig := at1 sig, natural := fromOn nat, afterTerm := fromOn aterm, afterKill := fromOn akill, late := at1 late }
-  let r := Runner.run e fuel
+  -- hs: "-" = quiet handshake, "term"/"alrm" = signal caught during it, "fail:<status>" = no process group in time
+  let f : Runner.Fork := match hs.splitOn ":" with
+    | "term" :: [] => ⟨some .term, true, .other⟩
+    | "alrm" :: [] => ⟨some .alrm, true, .other⟩
+    | "fail" :: st :: [] => ⟨none, false, wstatusOf st⟩
+    | _ => ⟨none, true, .other⟩
+  let r := Runner.stepExec e f fuel
   let acts := r.1.map fun a => match a with
     | .killTerm => "term" | .killTermLate => "termlate" | .killKill => "kill" | .reap _ => "reap" | .giveUp => "giveup" | .running => "running"
   s!"{r.2} " ++ ",".intercalate acts
@@ -412,6 +418,7 @@ def handle (ws : List String) : String :=
   | "conf" :: rest => confRun rest
   | "runner" :: fuel :: sig :: nat :: aterm :: akill :: [] => runnerRun (fuel.toNat?.getD 0) sig nat aterm akill "-"
   | "runner" :: fuel :: sig :: nat :: aterm :: akill :: late :: [] => runnerRun (fuel.toNat?.getD 0) sig nat aterm akill late
+  | "runner" :: fuel :: sig :: nat :: aterm :: akill :: late :: hs :: [] => runnerRun (fuel.toNat?.getD 0) sig nat aterm akill late hs
   | "rhtml" :: order :: invs => rhtmlRun (natList order) (invs.filterMap rhtmlInv)
   | "arena" :: hdr :: fsz :: pz :: csz :: ops :: [] =>
     let n := fun (x : String) => x.toNat?.getD 0
@@ -473,6 +480,13 @@ def handle (ws : List String) : String :=
     match StepFile.stepNextCmd (hexArg file) with
     | (rc, some p) => s!"{rc} {p}"
     | (rc, none) => s!"{rc} -"
+  | "hassteps" :: file :: [] => s!"{StepFile.hasStepsCmd (hexArg file)}"
+  | "trapdecision" :: file :: own :: err :: [] =>
+    match StepFile.parseFile (hexArg file) with
+    | none => "fail"
+    | some rows =>
+      let d := StepFile.trapExitDecision rows (own == "1") (err.toInt?.getD 0)
+      s!"{if d.1 then 1 else 0} {if d.2 then 1 else 0}"
   | "orch" :: "resume" :: n :: skip :: slots =>
     let c : OrchSeq.Cfg := ⟨n.toNat?.getD 0, fun j => (natList skip).contains j⟩
     match OrchSeq.resumeAt c (fileOfSlots slots) with
